@@ -24,4 +24,12 @@ META["C08"] = {
     "text": "Bounded symbolic model checking of non-interference: an item is produced by the real DUP / OVER / PICK / TUCK / 2DUP / IFDUP / TOALTSTACK / SPLIT handlers or pushed straight from a script buffer (so the memory sharing is the real one, represented exactly by the engine's heap), then any opcode (symbolic, all flags, both eras) transforms one copy; the solver decides that every item below the operands on the data stack, every alt-stack item and the script bytes keep their values, for all item contents up to K bytes.",
     "note": "Trusted: gosym heap/alias model (slices share cells exactly as Go slices share arrays, append growth follows runtime.growslice), math/big model. Outside the claim: items longer than K bytes, arithmetic opcodes other than a representative subset in the quick tier (all in thorough), signature opcodes, ROLL (moves items by design). Transaction serialisation unchanged by execution is checked in the C04 pipeline harness.",
 }
+META["C13"] = {
+    "text": "Bounded symbolic model checking of the script codecs: EncodeParts/DecodeParts round trip with part lengths on every push boundary (contents symbolic), DecodeParts against an independent reference tokeniser on every byte string up to L bytes (errors exactly on truncated pushes, identical push boundaries), hex and JSON renderings back to the same bytes.",
+    "note": "Trusted: gosym, z3. encoding/hex is executed from its own SSA. Not yet covered in this revision: interpreter Parse/Unparse agreement and the ASM round trip (see DESIGN.md).",
+}
+META["C14"] = {
+    "text": "Bounded symbolic model checking of script inspection: every inspection query on every byte string up to L bytes, on arbitrary 22..26-byte strings (non-tokenising queries), and on each standard template with symbolic keys/hashes (reported as its type) and with one byte overwritten by a symbolic byte / one byte removed / a zero-length push inserted at every position (no fault; P2PKH and data classification equal the reference predicates; undecodable scripts never key-bearing).",
+    "note": "Trusted: gosym, z3. In the mutation cases template payload bytes are a fixed tokeniser-relevant pattern and only the mutated byte is symbolic (stated cut); Addresses()/ToASM rendering are exercised under C15/C13.",
+}
 NOT_APPLICABLE = {}
